@@ -231,9 +231,9 @@ def payload_shapes(nbytes: int, rnd: random.Random, aa55: bool) -> list[bytes]:
 # ------------------------------------------------------------------------------------------------
 def seeds(tier: str) -> list[dict]:
     quick = tier == "quick"
-    counts = [1, 2, 8] if quick else [1, 2, 3, 8, 61, 124, 125]
-    addrs = [0xF7, 0x7F] if quick else [0, 1, 0x7F, 0xF7, 0xFF]
-    regs = [35100, 0x8000] if quick else [0, 1, 0xFF, 0x100, 0x7FFF, 0x8000, 0xFFFF, 35100]
+    counts = [1, 2, 8, 64, 124, 125] if quick else [1, 2, 3, 8, 61, 63, 64, 65, 124, 125]
+    addrs = [0xF7, 0x7F, 0x00, 0xFF] if quick else [0, 1, 0x7F, 0x80, 0xF7, 0xFF]
+    regs = [35100, 0x8000, 0xFFFF] if quick else [0, 1, 0xFF, 0x100, 0x7FFF, 0x8000, 0xFFFF, 35100]
     vals = [0, -1, 300, -32768, 32767] if quick else [-32768, -256, -1, 0, 1, 255, 256, 32767]
     pays = [b"\x00\x01", bytes(range(8))] if quick else [b"\x00\x01", b"\xff" * 4, bytes(range(8)), bytes(range(12)), bytes(246)]
     out = []
